@@ -59,6 +59,12 @@ class Module:
     def __init__(self, repo: "Repo", rel: str, src: str):
         self.repo = repo
         self.rel = rel
+        # code that was moved into names the reference tree does not know is analysed in its inlined normal form (see sa/inline.py);
+        # a module without such names is analysed as it is in the file
+        from . import inline
+
+        self.src_file = src
+        src, self.inlined = inline.normalise_source(src, rel)
         self.src = src
         self.lines = src.splitlines()
         try:
